@@ -15,7 +15,7 @@
 From Coq Require Import ZArith List Bool Lia.
 Import ListNotations.
 From TF Require Import Lib.GoInt Gen.Geometry Model.Recv Proofs.Recv Model.Send Proofs.Send Proofs.Geometry Proofs.Tree.
-From TF Require Model.Sidecar Model.Resume Proofs.ResumeFile.
+From TF Require Model.Sidecar Model.Resume Proofs.ResumeFile Proofs.TreeBytes.
 Open Scope Z_scope.
 
 Theorem C01_tree_chunks : forall src_tok src_len m res pr evs, Forall (wf_ev pr) evs ->
@@ -57,6 +57,24 @@ Theorem C01_file_bytes_identical : forall cs src idxs f,
   TF.Model.Resume.put_chunks cs src idxs f = src.
 Proof. exact TF.Proofs.ResumeFile.writes_cover_identical. Qed.
 Print Assumptions C01_file_bytes_identical.
+
+(* the two halves joined: from the conclusion of C01_tree_chunks for one file
+   (every chunk index covered by a write carrying the source's payload, or marked
+   in the honest prior state and untouched) to its bytes.  Replaying the logged
+   positional writes of that file, in the order they happened, on the data file
+   the run started from yields the source. *)
+Theorem C01_file_bytes_from_tree : forall (src_tok src_len : Z -> Z -> Z) (ws : list (Z * Z * Z * Z))
+    (key size cs total : Z) (prior : list Z) (sidecar : bool) (src f0 : list Z),
+  geom_dom size cs -> TF.Model.Sidecar.zlen src = size -> TF.Model.Sidecar.zlen f0 = size ->
+  recvTotalChunks size cs = Ret total ->
+  Forall (fun i => 0 <= i) (TF.Proofs.TreeBytes.idxs_of key ws) ->
+  (forall i, 0 <= i < total ->
+     (sidecar = true /\ In i prior /\ last_write ws key i = None) \/
+     last_write ws key i = Some (src_len key i, src_tok key i)) ->
+  (forall i, In i prior -> TF.Model.Resume.chunk_at cs f0 i = TF.Model.Resume.chunk_at cs src i) ->
+  TF.Model.Resume.put_chunks cs src (TF.Proofs.TreeBytes.idxs_of key ws) f0 = src.
+Proof. exact TF.Proofs.TreeBytes.file_bytes_from_tree_conclusion. Qed.
+Print Assumptions C01_file_bytes_from_tree.
 
 Example C01_file_bytes_example :
   TF.Model.Resume.put_chunks 2 [1; 2; 3; 4; 5] [2; 0; 1; 0] [9; 9; 9; 9; 9] = [1; 2; 3; 4; 5].
